@@ -673,9 +673,13 @@ fn one_history(u: &mut Universe, r: &mut Rng, out: &mut Out, cnt: &mut Counts, m
             break;
         }
         let calls1 = VERIF_VERIFY_CALLS.load(Ordering::SeqCst);
-        o.push((calls1 - calls0) as i128);
-        enc_state(&mut o, &pool);
+        // one frame per op: [len(ret), ret.., len(rest), rest..] so that a disagreement can be attributed to an op
+        let mut rest: Vec<i128> = vec![(calls1 - calls0) as i128];
+        enc_state(&mut rest, &pool);
+        obs.push(o.len() as i128);
         obs.extend(o);
+        obs.push(rest.len() as i128);
+        obs.extend(rest);
         segs.push(seg);
     }
     let tag = format!("L{}:{:x}", leaves, tagbits);
